@@ -351,6 +351,7 @@ fn learn(ctx: &mut ThreadCtx, op: OpRef, sp: &Span) {
 
 struct Rep {
     batches: Arc<Mutex<Vec<Batch>>>,
+    traces: bool,
 }
 
 impl Reporter for Rep {
@@ -368,6 +369,13 @@ impl Reporter for Rep {
         drop(b);
         sim::log_ev(sim::K_REPORT, idx as u64, n as u64);
         sim::report_stall(idx);
+        if self.traces {
+            // a reporter that is itself instrumented (names start with 'x': ignored by the oracles)
+            let r = Span::root("xrep", SpanContext::new(TraceId(0xDEAD_4000 + idx as u128), SpanId(1)));
+            let _g = r.set_local_parent();
+            let _l = LocalSpan::enter_with_local_parent("xrep-local");
+            LocalSpan::add_event(Event::new("xrep-ev"));
+        }
     }
 }
 
@@ -430,6 +438,7 @@ pub fn exec_op(ctx: &mut ThreadCtx, idx: usize, op: OpRef, o: &Op, inner: &[Op])
             fastrace::set_reporter(
                 Rep {
                     batches: sh.batches.clone(),
+                    traces: case.sched.reporter_traces,
                 },
                 Config::default()
                     .cancelable(*cancelable)
